@@ -1,6 +1,6 @@
 //! Utilities for running shell commands
 
-use super::path::AbsPath;
+use super::path::{normalize_path, AbsPath};
 use error_stack::{Report, Result, ResultExt};
 use std::error;
 use std::fmt::{Display, Formatter};
@@ -75,7 +75,9 @@ impl Shell {
     pub fn run(&self, command: &str, work_dir: &AbsPath, file: &str) -> Result<String, ShellError> {
         log::debug!("shell command `{command}`");
         let result = Command::new(&self.exe)
-            .current_dir(work_dir.to_string())
+            // the absolute path: the display string is relative to the base directory,
+            // which is only right when the base directory is the process working directory
+            .current_dir(normalize_path(&work_dir.as_path().display().to_string()))
             .args(&self.args)
             .arg(command)
             .env(TXTPP_FILE, file)
